@@ -239,6 +239,23 @@ theorem step_av_op {n : Nat} {st : St} {g : Bytes} {o : Op} {Y : Bytes} (hst : s
   cases o <;> simp only [Op.text, List.cons_append, List.nil_append] at hlex ⊢ <;>
     simp [stepArrayValue, stepArrayOp, arrayOpPre, hm, hlex, hst] at ho ⊢
 
+/-- the first operator in an array (not yet in mixed mode): `MixedContainer` is inserted in front
+of the scalar before the operator, the operator token is pushed, the parser is in mixed mode -/
+theorem step_av_op_first {n : Nat} {st : St} {X : List Tok} {l : Tok} {g : Bytes} {o : Op} {Y : Bytes}
+    (hst : st.state = .arrayValue) (hm : st.mixed = false) (hT : st.tape = X ++ [l])
+    (hl : ∃ sl, l.asScalar = some sl) (hg : Blank g) (ho : o ≠ .exists_)
+    (hY : o.text.length = 1 → Y.head? ≠ some 61) :
+    step n st (g ++ (o.text ++ Y)) =
+      .cont { st with tape := X ++ [.mixedContainer, l, .operator o], mixed := true } Y := by
+  obtain ⟨sl, hsl⟩ := hl
+  simp only [step, skipWs_blank hg, skipWs_op, stepAt, hst]
+  have hlex := lexOperator_text_arr o Y ho hY
+  cases o <;> simp only [Op.text, List.cons_append, List.nil_append] at hlex ⊢ <;>
+    simp [stepArrayValue, stepArrayOp, arrayOpPre, hm, hlex, hst, hT, hsl, insertBeforeLast] at ho ⊢
+
+theorem Scal.tok_asScalar (s : Scal) (X : Bytes) : ∃ sl, (s.tok X).asScalar = some sl := by
+  unfold Scal.tok; split <;> exact ⟨_, rfl⟩
+
 /-! ### contexts -/
 
 /-- the context of a value: like `Ctx3`, but the container it stands in may be in mixed mode again
@@ -318,6 +335,14 @@ theorem len_ftapeV : ∀ (v : FVal) (b : Nat) (a : Bytes), (ftapeV v b a).length
   | .mixed _ _ first rest _ _ items _, b, a => by
     simp only [ftapeV, fcntV, List.length_append, List.length_cons, List.length_nil, len_ftapeFirst first,
       len_ftapeF rest, len_ftapeI items]
+    omega
+  | .arrSM _ _ _ pre _ _ _ _ items _, b, a => by
+    simp only [ftapeV, fcntV, List.length_append, List.length_cons, List.length_nil, len_ftapeVs pre,
+      len_ftapeI items]
+    omega
+  | .arrCM _ first pre _ _ _ _ items _, b, a => by
+    simp only [ftapeV, fcntV, List.length_append, List.length_cons, List.length_nil, len_ftapeV first,
+      len_ftapeVs pre, len_ftapeI items]
     omega
 theorem len_ftapeFirst : ∀ (f : FFirst) (b : Nat) (a : Bytes), (ftapeFirst f b a).length = fcntFirst f
   | .kv _ _ o v, b, a => by
@@ -399,6 +424,12 @@ theorem head_frenderV (v : FVal) (after Z : Bytes) (hv : FValidV v after) :
     simp only [FValidV] at hv
     simp only [frenderV, List.append_assoc, List.cons_append]; exact head_open _ hv.1
   | mixed g g0 first rest gm m0 items gc =>
+    simp only [FValidV] at hv
+    simp only [frenderV, List.append_assoc, List.cons_append]; exact head_open _ hv.1
+  | arrSM g g0 s0 pre gm m0 go o items gc =>
+    simp only [FValidV] at hv
+    simp only [frenderV, List.append_assoc, List.cons_append]; exact head_open _ hv.1
+  | arrCM g first pre gm m0 go o items gc =>
     simp only [FValidV] at hv
     simp only [frenderV, List.append_assoc, List.cons_append]; exact head_open _ hv.1
 
@@ -487,6 +518,17 @@ theorem fcontainer_head {v : FVal} {a : Bytes} (hc : v.isContainer) (hv : FValid
     simp only [FValidV] at hv
     refine ⟨g, _, by simp only [frenderV, List.append_assoc, List.cons_append]; rfl, hv.1, ?_⟩
     exact first_head hv.2.2.2.2.1 hv.2.1 _
+  | arrSM g g0 s0 pre gm m0 go o items gc =>
+    simp only [FValidV] at hv
+    refine ⟨g, _, by simp only [frenderV, List.append_assoc, List.cons_append]; rfl, hv.1, ?_⟩
+    exact scal_head_skip _ hv.2.1 hv.2.2.2.2.2.1
+  | arrCM g first pre gm m0 go o items gc =>
+    simp only [FValidV] at hv
+    obtain ⟨g', X', hr, hg'⟩ := fcontainer_open hv.2.2.2.2.1 hv.2.2.2.2.2.1
+    refine ⟨g, _, by simp only [frenderV, List.append_assoc, List.cons_append]; rfl, hv.1, 123, ?_⟩
+    rw [hr]
+    simp only [List.append_assoc, List.cons_append]
+    exact ⟨_, by rw [skipWs_blank hg', skipWs_cons _ blank_open (by decide)], by decide⟩
 
 theorem skipWs_open_some {g : Bytes} (X : Bytes) (hg : Blank g) : ∃ d2, skipWs (g ++ 123 :: X) = some d2 :=
   ⟨_, by rw [skipWs_blank hg, skipWs_cons X blank_open (by decide)]⟩
@@ -504,6 +546,21 @@ theorem skipWs_frenderV_some {v : FVal} {a : Bytes} (hv : FValidV v a) (W : Byte
   | ghostIn g b1 b2 v => simp only [FValidV] at hv; simpa [frenderV] using skipWs_open_some _ hv.1
   | mixed g g0 first rest gm m0 items gc =>
     simp only [FValidV] at hv; simpa [frenderV] using skipWs_open_some _ hv.1
+  | arrSM g g0 s0 pre gm m0 go o items gc =>
+    simp only [FValidV] at hv; simpa [frenderV] using skipWs_open_some _ hv.1
+  | arrCM g first pre gm m0 go o items gc =>
+    simp only [FValidV] at hv; simpa [frenderV] using skipWs_open_some _ hv.1
+
+theorem skipWs_fvals_scal_some {vs : FVals} {a : Bytes} (hv : FValidVs vs a) {gm : Bytes} {m0 : Scal}
+    (hgm : Blank gm) (hm0 : m0.ValidX) (W : Bytes) (ha : a = gm ++ (m0.text ++ W)) :
+    ∃ d2, skipWs (frenderVs vs ++ a) = some d2 := by
+  subst ha
+  cases vs with
+  | nil => exact ⟨_, by simp only [frenderVs, List.nil_append]; rw [skipWs_blank hgm, skipWs_scalX hm0]⟩
+  | cons v rest =>
+    simp only [FValidVs] at hv
+    simp only [frenderVs, List.append_assoc]
+    exact skipWs_frenderV_some hv.1 _
 
 theorem skipWs_fvals_some {vs : FVals} {a : Bytes} (hv : FValidVs vs a) {gc : Bytes} (hgc : Blank gc) (Y : Bytes) :
     ∃ d2, skipWs (frenderVs vs ++ (gc ++ 125 :: Y)) = some d2 := by
@@ -584,6 +641,31 @@ theorem run_mixed_eq {n : Nat} {v : FVal} {after : Bytes} (f : Nat) (st : St)
   | empty g gc => simp [FVal.scalarLed] at hsl
   | arrC g first rest gc => simp [FVal.scalarLed] at hsl
   | ghostIn g b1 b2 v => simp [FVal.scalarLed] at hsl
+  | arrCM g first pre gm m0 go o items gc => simp [FVal.scalarLed] at hsl
+  | arrSM g g0 s0 pre gm m0 go o items gc =>
+    simp only [FValidV] at hv
+    obtain ⟨hg, h0, hgm, hgo, hgc, hs0, hsb, hpk, hvp, hm0, _⟩ := hv
+    obtain ⟨d2, hd2⟩ := skipWs_fvals_scal_some hvp hgm hm0 _ rfl
+    simp only [frenderV, List.append_assoc, List.cons_append, List.nil_append]
+    have hL : ∀ Z, skipWs Z = some d2 → firstFieldPeek d2 = false → (s0.quoted = false → StartsBoundary Z) →
+        run n (f + 2) st (g ++ 123 :: (g0 ++ (s0.text ++ Z))) =
+        run n f ⟨.arrayValue, false, st.tape.length,
+          flagIf st.mixed st.tape st.parent ++ [.array st.parent false, s0.tok Z]⟩ d2 := by
+      intro Z hZ hpkZ hsbZ
+      rw [show f + 2 = (f + 1) + 1 from rfl, run_cont (step_open (.inr hst) hg)]
+      rw [run_cont (step_parseopen_scalar_arr_m (T := st.tape) rfl rfl (by exact hp) h0 hs0 hsbZ hZ hpkZ)]
+    have hR : ∀ Z, skipWs Z = some d2 → firstFieldPeek d2 = false → (s0.quoted = false → StartsBoundary Z) →
+        run n (f + 2) ({ st with mixed := false, tape := setFlag st.tape st.parent } : St)
+          (g ++ 123 :: (g0 ++ (s0.text ++ Z))) =
+        run n f ⟨.arrayValue, false, (setFlag st.tape st.parent).length,
+          flagIf false (setFlag st.tape st.parent) st.parent ++ [.array st.parent false, s0.tok Z]⟩ d2 := by
+      intro Z hZ hpkZ hsbZ
+      rw [show f + 2 = (f + 1) + 1 from rfl,
+        run_cont (step_open (st := { st with mixed := false, tape := setFlag st.tape st.parent }) (.inr hst) hg)]
+      rw [run_cont (step_parseopen_scalar_arr_m (T := setFlag st.tape st.parent) rfl rfl
+        (by simpa [setFlag_length] using hp) h0 hs0 hsbZ hZ hpkZ)]
+    rw [hL _ hd2 (hpk d2 hd2) hsb, hR _ hd2 (hpk d2 hd2) hsb]
+    simp [flagIf, setFlag_length, hm]
   | obj g g0 first rest gc =>
     simp only [FVal.scalarLed] at hsl
     simp only [FValidV] at hv
@@ -674,6 +756,76 @@ theorem flagIf_setFlag (b : Bool) (T V : List Tok) (p : Nat) (hp : p < T.length)
   unfold flagIf; split
   · rw [setFlag_append _ _ _ (by rw [setFlag_length]; exact hp), setFlag_idem]
   · rfl
+
+/-- the context of the array part inside the container `c` just opened at index `|st.tape|` -/
+theorem ctxM_open {st : St} {cm : Bool} (hc : CtxC st cm) (hne : st.tape ≠ []) (c : Tok) (R : List Tok)
+    (hcont : ∃ e m, c = .object e m ∨ c = .array e m) :
+    CtxM ⟨.arrayValue, true, st.tape.length, st.tape ++ c :: R⟩ := by
+  have hlen : 0 < st.tape.length := List.length_pos_iff.2 hne
+  refine ⟨?_, by simp, ?_⟩
+  · intro e m
+    simp only
+    rw [List.getElem?_append_left hlen]
+    exact hc.zero e m
+  · obtain ⟨e, m, h | h⟩ := hcont
+    · exact ⟨e, m, .inl (by simp [h])⟩
+    · exact ⟨e, m, .inr (by simp [h])⟩
+
+/-- the array part of an array in mixed mode, then `}` (`hI` is what `frun_I` says about the items) -/
+theorem run_close_mixed_arr {n : Nat} {st : St} {cm : Bool} (hc : CtxC st cm) (hne : st.tape ≠ [])
+    (R : List Tok) (items : FItems) (gc after : Bytes) (hgc : Blank gc) (fuel : Nat)
+    (hI : run n (fuel + 1 + fstepsI items) ⟨.arrayValue, true, st.tape.length, st.tape ++ Tok.array st.parent false :: R⟩
+        (frenderI items ++ (gc ++ 125 :: after)) =
+      run n (fuel + 1) ⟨.arrayValue, true, st.tape.length,
+        flagIf items.hasCont (st.tape ++ Tok.array st.parent false :: R) st.tape.length ++
+          ftapeI items (st.tape ++ Tok.array st.parent false :: R).length (gc ++ 125 :: after)⟩
+        (gc ++ 125 :: after)) :
+    run n (fuel + 1 + fstepsI items) ⟨.arrayValue, true, st.tape.length, st.tape ++ Tok.array st.parent false :: R⟩
+        (frenderI items ++ (gc ++ 125 :: after)) =
+      run n fuel { st with
+        tape := st.tape ++ Tok.array (st.tape.length + 1 + R.length + fcntI items) true ::
+          (R ++ (ftapeI items (st.tape.length + 1 + R.length) (gc ++ 125 :: after) ++ [.endTok st.tape.length])),
+        state := ret st.state, mixed := if cm then true else st.mixed } after := by
+  have hlen : 0 < st.tape.length := List.length_pos_iff.2 hne
+  rw [hI]
+  have hpar : ∃ mf, (flagIf items.hasCont (st.tape ++ Tok.array st.parent false :: R) st.tape.length ++
+      ftapeI items (st.tape ++ Tok.array st.parent false :: R).length (gc ++ 125 :: after))[st.tape.length]? =
+      some (.array st.parent mf) := by
+    rw [List.getElem?_append_left (by rw [flagIf_length]; simp)]
+    unfold flagIf
+    split
+    · exact ⟨true, by simp [setFlag]⟩
+    · exact ⟨false, by simp⟩
+  obtain ⟨mf, hmf⟩ := hpar
+  have hcs : closeState (flagIf items.hasCont (st.tape ++ Tok.array st.parent false :: R) st.tape.length ++
+      ftapeI items (st.tape ++ Tok.array st.parent false :: R).length (gc ++ 125 :: after))[st.parent]? =
+      (cm, ret st.state) := by
+    have hpl := hc.plt' hne
+    rw [List.getElem?_append_left (by rw [flagIf_length]; simp; omega)]
+    have : (flagIf items.hasCont (st.tape ++ Tok.array st.parent false :: R) st.tape.length)[st.parent]? =
+        st.tape[st.parent]? := by
+      unfold flagIf
+      split
+      · rw [setFlag_get _ _ _ (by omega), List.getElem?_append_left hpl]
+      · rw [List.getElem?_append_left hpl]
+    rw [this]; exact hc.close
+  rw [run_cont (step_av_close_c (P := st.parent) (mf := mf) (cm := cm) (r := ret st.state) rfl hgc
+    (by simp; omega) (by simp [flagIf_length]; omega) hmf hcs)]
+  congr 1
+  refine St.ext' rfl (by cases cm <;> simp [hc.mixed]) rfl ?_
+  simp only
+  rw [List.set_append_left _ _ (by rw [flagIf_length]; simp)]
+  have hfs : ∀ Y, (flagIf items.hasCont (st.tape ++ Tok.array st.parent false :: R) st.tape.length).set st.tape.length Y =
+      st.tape ++ Y :: R := by
+    intro Y
+    unfold flagIf
+    split
+    · rw [setFlag_set, List.set_append_right _ _ (Nat.le_refl _)]; simp
+    · rw [List.set_append_right _ _ (Nat.le_refl _)]; simp
+  rw [hfs]
+  simp only [List.length_append, List.length_cons, flagIf_length, len_ftapeI, List.append_assoc,
+    List.cons_append, List.nil_append]
+  simp only [Nat.add_assoc, Nat.add_comm, Nat.add_left_comm]
 
 /-! ### whole values, first fields, field lists, element lists, array parts -/
 
@@ -899,6 +1051,85 @@ theorem frun_V (n : Nat) : ∀ (v : FVal) (after : Bytes) (fuel : Nat) (st : St)
     simp only [List.append_assoc, List.cons_append, List.nil_append]
     simp only [show (2 : Nat) = 1 + 1 from rfl]
     simp only [Nat.add_assoc, Nat.add_comm, Nat.add_left_comm]
+  | .arrSM g g0 s0 pre gm m0 go o items gc, after, fuel, st, cm, hv, hst, hc, hne => by
+    simp only [FValidV] at hv
+    obtain ⟨hg, h0, hgm, hgo, hgc, hs0, hsb, hpk, hvp, hm0, hm0b, ho, hoY, hel⟩ := hv
+    have hlen : 0 < st.tape.length := List.length_pos_iff.2 hne
+    have hfuel : fuel + fstepsV (.arrSM g g0 s0 pre gm m0 go o items gc) =
+        (((((fuel + 1 + fstepsI items) + 1) + 1) + fstepsVs pre) + 1) + 1 := by
+      simp only [fstepsV]; omega
+    rw [hfuel]
+    simp only [frenderV, List.append_assoc, List.cons_append, List.nil_append]
+    rw [run_cont (step_open hst hg)]
+    obtain ⟨d2, hd2⟩ := skipWs_fvals_scal_some hvp hgm hm0 _ rfl
+    rw [run_cont (step_parseopen_scalar_arrX (T := st.tape) rfl (by simpa using hc.mixed) rfl h0 hs0 hsb hd2
+      (hpk d2 hd2))]
+    rw [← run_skip hd2]
+    simp only [List.append_assoc, List.cons_append, List.nil_append]
+    rw [frun_Vs n pre _ _ _ hvp rfl
+      (ctx_inner hne hc.zero (.array st.parent false) _ .arrayValue rfl) (by simp)]
+    -- the scalar in front of the operator, then the operator
+    rw [run_cont (step_valX (.inr rfl) hgm hm0 hm0b)]
+    simp only [ret_av]
+    rw [run_cont (step_av_op_first (l := m0.tok (go ++ (o.text ++ (frenderI items ++ (gc ++ 125 :: after))))) rfl rfl rfl
+      (Scal.tok_asScalar _ _) hgo ho hoY)]
+    simp only [List.append_assoc, List.cons_append, List.nil_append]
+    -- the array part, then `}`
+    generalize hR : s0.tok (frenderVs pre ++ (gm ++ (m0.text ++ (go ++ (o.text ++ (frenderI items ++ (gc ++ 125 :: after))))))) ::
+        (ftapeVs pre (st.tape ++ [Tok.array st.parent false,
+            s0.tok (frenderVs pre ++ (gm ++ (m0.text ++ (go ++ (o.text ++ (frenderI items ++ (gc ++ 125 :: after)))))))]).length
+            (gm ++ (m0.text ++ (go ++ (o.text ++ (frenderI items ++ (gc ++ 125 :: after)))))) ++
+          [Tok.mixedContainer, m0.tok (go ++ (o.text ++ (frenderI items ++ (gc ++ 125 :: after)))), Tok.operator o]) = R
+    have hRlen : R.length = 1 + fcntVs pre + 3 := by
+      rw [← hR]; simp only [List.length_append, List.length_cons, List.length_nil, len_ftapeVs]; omega
+    rw [run_close_mixed_arr hc hne R items gc after hgc fuel
+      (frun_I n items (gc ++ 125 :: after) _ _ hel rfl rfl (ctxM_open hc hne _ R ⟨_, _, .inr rfl⟩))]
+    congr 1
+    refine St.ext' rfl rfl rfl ?_
+    simp only [ftapeV, hRlen, ← hR, List.length_append, List.length_cons, List.length_nil, len_ftapeVs,
+      List.append_assoc, List.cons_append, List.nil_append]
+    simp only [show (3 : Nat) = 1 + 1 + 1 from rfl]
+    simp only [Nat.add_assoc, Nat.add_comm, Nat.add_left_comm, Nat.zero_add]
+  | .arrCM g first pre gm m0 go o items gc, after, fuel, st, cm, hv, hst, hc, hne => by
+    simp only [FValidV] at hv
+    obtain ⟨hg, hgm, hgo, hgc, hfc, hvf, hvp, hm0, hm0b, ho, hoY, hel⟩ := hv
+    have hlen : 0 < st.tape.length := List.length_pos_iff.2 hne
+    have hfuel : fuel + fstepsV (.arrCM g first pre gm m0 go o items gc) =
+        ((((((fuel + 1 + fstepsI items) + 1) + 1) + fstepsVs pre) + fstepsV first) + 1) + 1 := by
+      simp only [fstepsV]; omega
+    rw [hfuel]
+    simp only [frenderV, List.append_assoc, List.cons_append, List.nil_append]
+    rw [run_cont (step_open hst hg)]
+    obtain ⟨gf, Xf, hrf, hgf, c2, r2, hsk, hc2⟩ := fcontainer_head hfc hvf
+      (frenderVs pre ++ (gm ++ (m0.text ++ (go ++ (o.text ++ (frenderI items ++ (gc ++ 125 :: after)))))))
+    rw [hrf, run_cont (step_parseopen_container_arr (T := st.tape) rfl rfl hgf hsk hc2)]
+    rw [← run_blank hgf, ← hrf]
+    rw [frun_V n first _ _ _ false hvf (.inr rfl)
+      (ctx_inner hne hc.zero (.array st.parent false) [] .arrayValue rfl).toC (by simp)]
+    simp only [ret_av, List.append_assoc, List.cons_append, List.nil_append, Bool.false_eq_true, if_false]
+    rw [frun_Vs n pre _ _ _ hvp rfl
+      (ctx_inner hne hc.zero (.array st.parent false) _ .arrayValue rfl) (by simp)]
+    rw [run_cont (step_valX (.inr rfl) hgm hm0 hm0b)]
+    simp only [ret_av]
+    rw [run_cont (step_av_op_first (l := m0.tok (go ++ (o.text ++ (frenderI items ++ (gc ++ 125 :: after))))) rfl rfl rfl
+      (Scal.tok_asScalar _ _) hgo ho hoY)]
+    simp only [List.append_assoc, List.cons_append, List.nil_append]
+    generalize hR : ftapeV first (st.tape ++ [Tok.array st.parent false]).length
+          (frenderVs pre ++ (gm ++ (m0.text ++ (go ++ (o.text ++ (frenderI items ++ (gc ++ 125 :: after))))))) ++
+        (ftapeVs pre (st.tape ++ Tok.array st.parent false :: ftapeV first (st.tape ++ [Tok.array st.parent false]).length
+            (frenderVs pre ++ (gm ++ (m0.text ++ (go ++ (o.text ++ (frenderI items ++ (gc ++ 125 :: after)))))))).length
+            (gm ++ (m0.text ++ (go ++ (o.text ++ (frenderI items ++ (gc ++ 125 :: after)))))) ++
+          [Tok.mixedContainer, m0.tok (go ++ (o.text ++ (frenderI items ++ (gc ++ 125 :: after)))), Tok.operator o]) = R
+    have hRlen : R.length = fcntV first + fcntVs pre + 3 := by
+      rw [← hR]; simp only [List.length_append, List.length_cons, List.length_nil, len_ftapeV, len_ftapeVs]; omega
+    rw [run_close_mixed_arr hc hne R items gc after hgc fuel
+      (frun_I n items (gc ++ 125 :: after) _ _ hel rfl rfl (ctxM_open hc hne _ R ⟨_, _, .inr rfl⟩))]
+    congr 1
+    refine St.ext' rfl rfl rfl ?_
+    simp only [ftapeV, hRlen, ← hR, List.length_append, List.length_cons, List.length_nil, len_ftapeV,
+      len_ftapeVs, List.append_assoc, List.cons_append, List.nil_append]
+    simp only [show (3 : Nat) = 1 + 1 + 1 from rfl]
+    simp only [Nat.add_assoc, Nat.add_comm, Nat.add_left_comm, Nat.zero_add]
 theorem frun_First (n : Nat) : ∀ (first : FFirst) (after : Bytes) (fuel : Nat) (T : List Tok) (P : Nat) (g0 : Bytes),
     FValidFirst first after → Blank g0 → T ≠ [] →
     (∀ e m, T[0]? ≠ some (.array e m) ∧ T[0]? ≠ some (.object e m)) →
@@ -1369,6 +1600,24 @@ theorem fstepsV_le : ∀ (v : FVal) (a : Bytes), FValidV v a → fstepsV v ≤ 2
     obtain ⟨_, _, _, _, hvf, hvr, hm0, _, _, hel⟩ := hv
     have h3 := fstepsFirst_le first _ hvf
     have h4 := fstepsF_le rest _ hvr
+    have h5 := hm0.text_pos
+    have h6 := fstepsI_le items _ hel
+    simp only [fstepsV, frenderV, List.length_append, List.length_cons, List.length_nil]; omega
+  | .arrSM g g0 s0 pre gm m0 go o items gc, a, hv => by
+    simp only [FValidV] at hv
+    obtain ⟨_, _, _, _, _, hs0, _, _, hvp, hm0, _, _, _, hel⟩ := hv
+    have h1 := hs0.text_pos
+    have h2 := o.text_pos
+    have h4 := fstepsVs_le pre _ hvp
+    have h5 := hm0.text_pos
+    have h6 := fstepsI_le items _ hel
+    simp only [fstepsV, frenderV, List.length_append, List.length_cons, List.length_nil]; omega
+  | .arrCM g first pre gm m0 go o items gc, a, hv => by
+    simp only [FValidV] at hv
+    obtain ⟨_, _, _, _, _, hvf, hvp, hm0, _, _, _, hel⟩ := hv
+    have h2 := o.text_pos
+    have h3 := fstepsV_le first _ hvf
+    have h4 := fstepsVs_le pre _ hvp
     have h5 := hm0.text_pos
     have h6 := fstepsI_le items _ hel
     simp only [fstepsV, frenderV, List.length_append, List.length_cons, List.length_nil]; omega
